@@ -52,6 +52,17 @@ def checked_conv(x):
     return None
 
 
+def unchecked_form(alts):
+    """`u64::try_from(y).unwrap_or(u64::MAX)` behind a range check of y is `y as u64` (the fallback is dead - that the range check
+    is there and exact is what the guard rule decides on the result): [Ok payload of try_from(y), constant] -> the cast term"""
+    alts = [a for x in alts for a in (x[1] if x[0] == 'phi' else (x,))]
+    ccs = [checked_conv(a) for a in alts]
+    good = [c for c in ccs if c is not None]
+    if len(alts) == 2 and len(good) == 1 and good[0][0] == 'u64' and any(a[0] == 'const' for a in alts):
+        return ('cast', 'IntToInt', 'u128', 'u64', good[0][1])
+    return None
+
+
 def _call_block(ib, T, ct):
     for bi, t in ib.calls():
         if not ib.blocks[bi]['cleanup'] and not ib.blocks[bi].get('dead') and norm(T.call_term(bi)) == ct:
@@ -246,6 +257,9 @@ def rule_units_and_guard(ctx, rep, units=True):
             oku = len(acc) == 1 and acc[0][1] == 'core::time::Duration::' + unit and peel(acc[0][2][0]) == ('param', 1)
             rep.ob('R2', inst, oku, b.where(), 'converted with %s()' % unit if oku else 'Duration is converted with %s, the unit for this kind is %s()' % ([a[1].rsplit('::', 1)[-1] for a in acc], unit))
             # the cast
+            uf_ = unchecked_form([conv])
+            if uf_ is not None:
+                conv = uf_
             cc = checked_conv(conv)
             if cc is not None:
                 n_casts += 1
@@ -316,6 +330,12 @@ def rule_units_and_guard(ctx, rep, units=True):
             Ta, Tm = Terms(ab), Terms(mb)
             ra = ret_terms(Ta, [0])
             rm = ret_terms(Tm, [0])
+            if len(rm) != 1:
+                uf_ = unchecked_form(list(rm))
+                if uf_ is not None:
+                    rm = {uf_}
+            elif unchecked_form(list(rm)) is not None:
+                rm = {unchecked_form(list(rm))}
             if len(ra) != 1 or len(rm) != 1:
                 rep.unknown('R3', inst, b.where(), 'closure shapes')
                 continue
